@@ -1,7 +1,7 @@
 """C14 - alarm times = anchor + TRIGGER + k*DURATION, k = 0..REPEAT (RFC 5545 / RFC 9074).
 
 E-enum: component {VEVENT, VTODO} x start {absent, date, floating, UTC, zoned 12h before a DST change, zoned} x end
-{absent, DTEND|DUE, DURATION in days, DURATION with a time part} x alarm lists of length <= 2 over the product
+{absent, DTEND|DUE, DURATION in days, DURATION with a time part, zero DURATION} x alarm lists of length <= 2 over the product
 TRIGGER (8) x RELATED (3) x (REPEAT, DURATION) (8, incl. a zero DURATION), each built through the API and again parsed from its own
 serialisation, under both providers.  Oracle: refmodel/alarms.py; per alarm the sequence of trigger times, and overall
 their multiset, equal the model's; Alarm.triggers agrees; missing/invalid information is reported only by the
@@ -19,7 +19,7 @@ from icalendar.timezone import tzp
 
 UTC = timezone.utc
 STARTS = ("absent", "date", "floating", "utc", "zoned-dst", "zoned")
-ENDS = ("absent", "explicit", "dur-days", "dur-time")
+ENDS = ("absent", "explicit", "dur-days", "dur-time", "dur-zero")
 TRIGGERS = ("absent", "PT0S", "-PT15M", "PT5H", "-P1D", "P1D", "abs-utc", "abs-zoned")
 RELATED = (None, "START", "END")
 REPDUR = ((None, None), (0, "PT5M"), (2, "PT5M"), (2, None), (None, "PT5M"), (1, "P1D"), (3, "PT24H"), (2, "PT0S"))
@@ -71,6 +71,9 @@ def build(case):
         comp.DURATION = dur
     elif ek == "dur-time":
         dur = timedelta(hours=1, minutes=30)
+        comp.DURATION = dur
+    elif ek == "dur-zero":
+        dur = timedelta(0)
         comp.DURATION = dur
     specs = []
     for trig, rel, (rep, rdur) in alarms:
@@ -178,7 +181,7 @@ REDUCED = [(t, r, rd) for t in ("-PT15M", "PT5H", "-P1D", "abs-utc") for r in (N
 
 
 def run(ctx):
-    ctx.rule = ("E-enum: {VEVENT,VTODO} x 6 start kinds x 4 end kinds x all single alarms TRIGGER(8) x RELATED(3) x "
+    ctx.rule = ("E-enum: {VEVENT,VTODO} x 6 start kinds x 5 end kinds (incl. a zero DURATION) x all single alarms TRIGGER(8) x RELATED(3) x "
                 "(REPEAT,DURATION)(8, incl. a zero DURATION) x {API-built, parsed} x {zoneinfo, pytz}; plus all ordered pairs over a reduced menu of "
                 f"{len(REDUCED)} alarm shapes" + ("" if ctx.quick else " and all triples over 8 shapes") +
                 ". non-trivial = at least one alarm has a TRIGGER.")
